@@ -1,5 +1,5 @@
 """C07 — inverse and division.
-(a) DIRECT ORACLE on the implementation (exploration for d >= 4, confirmation of the theorems below):
+(a) DIRECT ORACLE on the implementation (exploration for d >= 5 and custom spellings, confirmation of the d <= 4 theorems):
     whenever x.inv() returns, x*x.inv() and x.inv()*x are the scalar 1 — exactly over fractions.Fraction
     for d <= 5, to 1e-9 relative for d >= 6 (the iterative scheme divides by floats); a/b = a*b.inv(),
     c/x = c*x.inv(), x**-n = (x.inv())**n; when x.inv() raises ZeroDivisionError the operand must be
@@ -22,7 +22,8 @@ RULE = ('d<=3: every signature over {1,-1,0} (quick: all d<=2, half of d=3) x op
         'distinct = distinct (algebra, key tuple, values).')
 TRUSTED = ['Model/Inverse.v (hand-written after codegen.py / multivector.py) tied by this correspondence',
            'exact Gaussian elimination over fractions.Fraction in this file (singularity oracle)',
-           'd >= 4: no theorem covers x*num = den; the direct oracle (a) is exploration only',
+           'd = 5: no theorem covers x*num = den; d >= 6: the theorem assumes that the Shirokov loop stops by its break; custom bases with non-ascending spellings: '
+           'not composed with the relabelling theorem — for these the direct oracle (a) is exploration only',
            'd >= 6: kingdon divides by python floats inside the generated polynomials; compared to 1e-9 relative']
 ASSUMPTIONS = ['Fraction evaluation points stand for exact coefficient types', 'duplicate-free key tuples',
                'numeric calls of codegen_hitzer_inv / codegen_shirokov_inv (no symbolic filter) stand for the generated code in the model tie']
